@@ -1,6 +1,6 @@
 (* Model of pub/social_wrapped_callbacks.go (tree with the fix: commits). *)
 From Coq Require Import String List Bool Arith.
-From Verif Require Import Base.ListX Base.Json Base.Free Base.Time Pub.Events Pub.Calls Pub.Value Pub.Util Pub.SideEffect Pub.Fed.
+From Verif Require Import Base.ListX Base.Json Base.Free Base.Time Pub.Events Pub.Calls Pub.Value Pub.EffectSpec Pub.Util Pub.SideEffect Pub.Fed.
 Import ListNotations.
 Open Scope string_scope.
 Open Scope list_scope.
@@ -69,12 +69,6 @@ Section Soc.
     | Some x => if Nat.eqb idx 0 then x else JNull
     | None => JNull
     end.
-  Definition null_keys (j : json) : list string :=
-    map fst (filter (fun kv => match snd kv with JNull => true | _ => false end) (jfields j)).
-
-  Definition overlay (stored supplied : json) : json :=
-    fold_left (fun acc kv => jset (fst kv) (snd kv) acc) (jfields supplied) stored.
-
   Fixpoint update_loop (idx : nat) (l : list json) (ids : list string) : prog (res unit) :=
     match l, ids with
     | e :: r, id :: ids' =>
@@ -83,9 +77,7 @@ Section Soc.
                 match e_type "object" e with
                 | None => fail EGeneric
                 | Some supplied =>
-                    let m := overlay t supplied in
-                    let m := fold_left (fun acc k => jremove k acc) (null_keys (raw_object_at idx)) m in
-                    new_t <-? lift (to_type m) ;;
+                    new_t <-? lift (update_spec t supplied (raw_object_at idx)) ;;
                     db_unit "Update" [new_t]
                 end) ;;
         update_loop (S idx) r ids'
@@ -130,8 +122,7 @@ Section Soc.
     with_lock_deferred actor (
       liked <-? db_json "Liked" [JStr actor] ;;
       ids <-? lift (to_ids "object" (elems0 "object" a)) ;;
-      let liked' := set_elems "items" (map JStr (rev ids) ++ elems0 "items" liked) liked in
-      _ <-? db_unit "Update" [liked'] ;;
+      _ <-? db_unit "Update" [like_spec ids liked] ;;
       swrapped "Like" a).
 
   Definition undo (a : json) : prog (res unit) :=
